@@ -6,6 +6,8 @@ package contract
 
 //@ prop C16
 //@ import callflag github.com/nspcc-dev/neo-go/pkg/smartcontract/callflag
+//@ import vm github.com/nspcc-dev/neo-go/pkg/vm
+//@ import storage github.com/nspcc-dev/neo-go/pkg/core/storage
 
 // Call-site obligations of the contract-call path: whatever the caller passes, a method
 // marked safe is entered without the write-states and allow-notify flags, and the flags
@@ -19,12 +21,19 @@ package contract
 //@ call callExFromNative requires[shrink] arg5 & f == arg5
 //@ call callExFromNative requires[method] same(arg3, md.Name)
 
+//@ prop C04,C16
 //@ func callExFromNative
 //@ may-panic
 //@ requires ic != nil && ic.VM != nil && cs != nil
 //@ opt frame off
 //@ opt stable ic.VM
 //@ call LoadNEFMethod requires[shrink] arg5 & f == arg5
+// (C04) A callee that can write storage or notify, entered while the calling contract has an
+// open TRY, runs in a private layer of its own: a fresh empty layer over the caller's DAO,
+// which the unload callback (below) merges or drops.
+//@ call LoadNEFMethod requires[wrap] vm.wfTryAll(ic.VM) && vm.hasTry(ic.VM) && arg5 & (callflag.WriteStates | callflag.AllowNotify) != 0 ==> wrapped
+//@ call LoadNEFMethod requires[layer] wrapped ==> ic.DAO != baseDAO && fresh(ic.DAO) && ic.DAO.private && ic.DAO.nativeCachePS == baseDAO && len(ic.DAO.nativeCache) == 0 && ic.DAO.Store.ps == storage.Store(baseDAO.Store) && len(ic.DAO.Store.MemoryStore.mem) == 0 && len(ic.DAO.Store.MemoryStore.stor) == 0
+//@ call LoadNEFMethod requires[same] !wrapped ==> ic.DAO == baseDAO
 
 //@ prop C04,C16
 // The unload callback of a contract call: on an uncaught exception in a wrapped call every
